@@ -107,6 +107,10 @@ fn scaled(kind: &str, n: usize) -> Vec<u8> {
         "expr-parens" => { s.push_str("<rect wh=\"{{"); for _ in 0..n { s.push('('); } s.push('1'); for _ in 0..n { s.push(')'); } s.push_str("}} 2\"/>"); }
         "var-chain" => { s.push_str("<var v0=\"1\"/>"); for i in 1..n { s.push_str(&format!("<var v{i}=\"{{{{$v{} + 1}}}}\"/>", i - 1)); } s.push_str(&format!("<rect wh=\"$v{} 2\"/>", n - 1)); }
         "scope-lookup" => { s.push_str("<g v0=\"1\""); for i in 1..n { s.push_str(&format!(" v{i}=\"$v{} + $v{}\"", i - 1, i - 1)); } s.push_str(&format!("><rect wh=\"{{{{$v{}}}}} 2\"/></g>", n - 1)); }
+        "expr-minus" => { s.push_str("<rect wh=\"{{"); for _ in 0..n { s.push('-'); } s.push_str("1}} 2\"/>"); }
+        "expr-calls" => { s.push_str("<rect wh=\"{{"); for _ in 0..n { s.push_str("abs("); } s.push('1'); for _ in 0..n { s.push(')'); } s.push_str("}} 2\"/>"); }
+        // attributes of one scope, each the previous one: evaluated lazily, one level of recursion per link
+        "scope-chain" => { s.push_str("<g v0=\"1\""); for i in 1..n { s.push_str(&format!(" v{i}=\"$v{}\"", i - 1)); } s.push_str(&format!("><rect wh=\"{{{{$v{}}}}} 2\"/></g>", n - 1)); }
         "use-chain" => { s.push_str("<rect id=\"u0\" wh=\"2\"/>"); for i in 1..n { s.push_str(&format!("<use id=\"u{i}\" href=\"#u{}\" x=\"1\"/>", i - 1)); } s.push_str(&format!("<rect xy=\"#u{}|h\" wh=\"1\"/>", n - 1)); }
         "reuse-self" => { s.push_str("<specs><g id=\"t\"><rect wh=\"1\"/><reuse href=\"#t\"/></g></specs><reuse href=\"#t\"/>"); }
         // a container that fails on every attempt while registering a different id each time: the retry
@@ -295,12 +299,12 @@ pub fn run(rep: &mut Report, tier: &str, seed: u64) -> Result<(), String> {
     judge_isolated(rep, &mut st, &cases, &tags, Duration::from_secs(5), 1000);
     rep.streams.push(st);
 
-    let mut st = Stream::new("scale/work", "oracle", "constructs of growing size, each with a 20 s limit in a child process: n siblings, n nested groups (below, at and far above the depth limit), forward and `^` reference chains, a loop of n passes, path data and point lists of n items, a sum of n terms, n nested parentheses, a chain of n variables, n attributes of one scope referring to each other (the sizes that are known findings live in the corpus), a chain of n <use> elements, a template that reuses itself, failing containers (nested n deep) that register a fresh id on every attempt, n text lines, n pattern classes");
+    let mut st = Stream::new("scale/work", "oracle", "constructs of growing size, each with a 20 s limit in a child process: n siblings, n nested groups (below, at and far above the depth limit), forward and `^` reference chains, a loop of n passes, path data and point lists of n items, a sum of n terms, n nested parentheses / unary minus signs / function calls (below, at and far above the expression nesting limit), a chain of n variables, a chain of n attributes of one scope each defined as the previous one, n attributes of one scope referring to each other (the sizes that are known findings live in the corpus), a chain of n <use> elements, a template that reuses itself, failing containers (nested n deep) that register a fresh id on every attempt, n text lines, n pattern classes");
     let mut cases = vec![];
     let mut tags = vec![];
     let sizes: &[(&str, &[usize])] = &[
         ("siblings", &[100, 1000, 4000]), ("nesting", &[50, 99, 100, 101, 1000, 20000]), ("chain-forward", &[20, 80, 200]), ("chain-prev", &[100, 1000]),
-        ("loop", &[10, 999, 1000, 1001]), ("path", &[100, 10000, 100000]), ("points", &[100, 10000]), ("expr-sum", &[10, 1000, 20000]), ("expr-parens", &[10, 200]),
+        ("loop", &[10, 999, 1000, 1001]), ("path", &[100, 10000, 100000]), ("points", &[100, 10000]), ("expr-sum", &[10, 1000, 20000]), ("expr-parens", &[10, 100, 101, 3000, 20000, 100000]), ("expr-minus", &[10, 100, 101, 3000, 20000, 100000]), ("expr-calls", &[10, 101, 3000, 20000]), ("scope-chain", &[10, 100, 102, 2000]),
         ("var-chain", &[10, 300]), ("scope-lookup", &[5, 12]), ("use-chain", &[10, 300]), ("reuse-self", &[1]), ("idle-var-ids", &[0, 1, 3]), ("idle-random-ids", &[1, 2, 4]), ("idle-loop-ids", &[1, 3]), ("text-lines", &[10, 2000]), ("classes", &[10, 2000]),
     ];
     for (k, ns) in sizes {
